@@ -2,13 +2,14 @@ package alert
 
 import (
 	"errors"
+	"runtime"
 	"time"
 
 	"github.com/influxdata/kapacitor/alert"
 	kexpvar "github.com/influxdata/kapacitor/expvar"
 	"github.com/influxdata/kapacitor/services/storage"
-	"github.com/mailru/easyjson/jlexer"
 	vrt "github.com/influxdata/kapacitor/zz_vrt"
+	"github.com/mailru/easyjson/jlexer"
 	"go.etcd.io/bbolt"
 )
 
@@ -141,11 +142,15 @@ func (s *verifC08Store) Store(buckets ...[]byte) storage.Interface {
 	return &verifC08Store{db: s.db, path: buckets}
 }
 
+// A transaction is a scheduling point (a real store does I/O here): natively this widens
+// the windows the stress replays of schedule-dependent counterexamples have to hit.
 func (s *verifC08Store) View(f func(storage.ReadOnlyTx) error) error {
+	runtime.Gosched()
 	return f(&verifC08ROTx{verifC08Tx{root: s.db.root, path: s.path}})
 }
 
 func (s *verifC08Store) Update(f func(storage.Tx) error) error {
+	runtime.Gosched()
 	work := s.db.root.clone()
 	if err := f(&verifC08Tx{root: work, path: s.path}); err != nil {
 		return err
